@@ -21,6 +21,10 @@ type C03Case struct {
 	// operand object, each judged like the first: 17 or more distinct ones, then some of the
 	// earlier ones again, newest first
 	Series []prog.Node `json:"series,omitempty"`
+	// Chain: the series is applied as a chain - every call takes the previous call's result
+	// object as its operand (judged against the scalar function of that result's elements as
+	// read back), e.g. Pow of a Pow result, Exp of a Scale result
+	Chain bool `json:"chain,omitempty"`
 }
 
 var seriesScale = []float64{-2, -1, -0.5, 0, 0.25, 0.5, 1, 1.5, 2, 3}
@@ -137,6 +141,9 @@ func genC03(t *rapid.T) C03Case {
 	c := C03Case{P: p}
 	if op != "equals" && ref.Prod(p.Leaves[0].Shape) <= 64 && rapid.IntRange(0, 11).Draw(t, "series") == 0 {
 		c.Series = drawUnarySeries(t)
+	} else if op != "equals" && ref.Prod(p.Leaves[0].Shape) <= 64 && rapid.IntRange(0, 7).Draw(t, "chain") == 0 {
+		all := drawUnarySeries(t)
+		c.Series, c.Chain = all[:rapid.IntRange(2, 6).Draw(t, "chainlen")], true
 	}
 	return c
 }
@@ -179,7 +186,18 @@ func checkC03(c C03Case) *Failure {
 		// a long series of unary calls on one tensor object
 		x0 := leaves[0]
 		r0 := ref.FromVals(c.P.Leaves[0].Shape, c.P.Leaves[0].Vals)
+		if c.Chain {
+			evid.Class("C03.chain_of_unary_calls_on_results")
+		}
 		for k, sn := range c.Series {
+			if c.Chain && k > 0 {
+				// the operand is the previous result object; the definition applies to its elements
+				cs, cv, err := lib.Read(x0)
+				if err != nil {
+					return failf("result %d of a chain unreadable: %v", k, err)
+				}
+				r0 = ref.FromVals(cs, cv)
+			}
 			if !prog.IsUnary(sn.Op) {
 				return nil
 			}
@@ -198,8 +216,13 @@ func checkC03(c C03Case) *Failure {
 			if f := compareTensor(fmt.Sprintf("call %d of a series of unary calls on one tensor object: %s(%v)", k+2, sn.Op, sn.F), ys, ws, m, nil); f != nil {
 				return f
 			}
+			if c.Chain {
+				x0 = ys
+			}
 		}
-		evid.Class("C03.series_of_17_or_more_unary_calls_on_one_tensor")
+		if !c.Chain {
+			evid.Class("C03.series_of_17_or_more_unary_calls_on_one_tensor")
+		}
 	}
 	if prog.IsCmp(n.Op) {
 		_, yv, _ := lib.Read(y)
